@@ -461,6 +461,9 @@ fn case(m: &mut Mon, r: &mut Rng, _idx: u64) {
                         }
                         let pi = p as i64;
                         let wq = trunc(&BigInt::from(pi), &mia).0;
+                        if wq > BigInt::from(i64::MAX) {
+                            return Ok(()); // i64::MIN / -1 is not representable (same as the primitive overflow)
+                        }
                         ensure!(BigInt::from(pi / &xi) == wq, "value", "i64/i = {}", pi / &xi);
                         Ok(())
                     }
